@@ -15,6 +15,7 @@ import (
 	_ "verif/mc/props/c14"
 	_ "verif/mc/props/c15"
 	_ "verif/mc/props/c16"
+	_ "verif/mc/props/c17"
 	_ "verif/mc/props/c18"
 	_ "verif/mc/props/c19"
 	_ "verif/mc/props/c20"
